@@ -171,6 +171,13 @@ func checkC13(w *Worker) {
 				days = append(days, fmt.Sprintf("%04d/02/29", y))
 			}
 		}
+		if x.w.Tier == "thorough" {
+			// every day of fifteen years
+			days = nil
+			for n := dayNumber("2016/01/01"); n <= dayNumber("2030/12/31"); n++ {
+				days = append(days, c13FromDayNumber(n))
+			}
+		}
 		days = append(days, "1970/01/01", "1969/12/31", "1900/02/28", "2000/02/29", "2100/03/01", "0001/01/01", "9999/12/31", "1582/10/10")
 		if order == 1 {
 			for l, r := 0, len(days)-1; l < r; l, r = l+1, r-1 {
@@ -373,4 +380,15 @@ func checkC13(w *Worker) {
 		}
 		verify(x, appCase{Args: []string{"csv", "database-resolved"}, Files: map[string]string{"food.yaml": book}}, want, 2, "database-resolved")
 	})
+}
+
+// c13FromDayNumber: inverse of dayNumber (integer arithmetic only).
+func c13FromDayNumber(n int) string {
+	a := n + 32044
+	b := (4*a + 3) / 146097
+	c := a - 146097*b/4
+	d := (4*c + 3) / 1461
+	e := c - 1461*d/4
+	m := (5*e + 2) / 153
+	return fmt.Sprintf("%04d/%02d/%02d", 100*b+d-4800+m/10, m+3-12*(m/10), e-(153*m+2)/5+1)
 }
